@@ -1,6 +1,7 @@
 /-
 C10 helpers, part 3: the stages of one evaluation step — cache look-up, initial state, preparation of the input state,
-the command (`cmdH` writes only cells of the state in hand and of the argument values), admission to the cache.
+the command (`cmdH` writes only cells of the state in hand, of the argument values and of the context's variables — the
+variable objects of the predecessor state), admission to the cache.
 -/
 import LiquerProofs.Lemmas.Iso2
 
@@ -93,23 +94,25 @@ theorem getVar_listAt {h : Heap} {vars : List (Str × HV)} {k : Str} {a : Addr} 
 
 /-! ### the command writes only what it was handed -/
 
-/-- the footprint of a command: the cells of its input state and of its argument values -/
-def cmdFoot (h : Heap) (old : HState) (args : List HV) : List Addr := cellsState h old ++ args.flatMap cellsHV
+/-- the footprint of a command: the cells of its input state, of its argument values and of the context's variables -/
+def cmdFoot (h : Heap) (old : HState) (ctx : List (Str × HV)) (args : List HV) : List Addr :=
+  cellsState h old ++ args.flatMap cellsHV ++ cellsVars ctx
 
-theorem mem_cmdFoot {h : Heap} {old : HState} {args : List HV} {a : Addr} :
-    a ∈ cmdFoot h old args ↔ a ∈ cellsState h old ∨ ∃ v ∈ args, a ∈ cellsHV v := by
+theorem mem_cmdFoot {h : Heap} {old : HState} {ctx : List (Str × HV)} {args : List HV} {a : Addr} :
+    a ∈ cmdFoot h old ctx args ↔ a ∈ cellsState h old ∨ (∃ v ∈ args, a ∈ cellsHV v) ∨ a ∈ cellsVars ctx := by
   simp [cmdFoot]
 
-theorem cmdH_frame {h : Heap} {old : HState} {name : String} {args : List HV} {h4 : Heap} {data : HV} {vol caching : Bool}
-    (hc : cmdH h old name args = .ok h4 data vol caching) (lt : ∀ a ∈ cmdFoot h old args, a < h.next) :
-    HMod (cmdFoot h old args) h h4 ∧
-      ∀ a ∈ cellsState h4 ⟨data, old.md⟩, a ∈ cmdFoot h old args ∨ (h.next ≤ a ∧ a < h4.next) := by
+theorem cmdH_frame {h : Heap} {old : HState} {ctx : List (Str × HV)} {name : String} {args : List HV} {h4 : Heap} {data : HV}
+    {vol caching : Bool}
+    (hc : cmdH h old ctx name args = .ok h4 data vol caching) (lt : ∀ a ∈ cmdFoot h old ctx args, a < h.next) :
+    HMod (cmdFoot h old ctx args) h h4 ∧
+      ∀ a ∈ cellsState h4 ⟨data, old.md⟩, a ∈ cmdFoot h old ctx args ∨ (h.next ≤ a ∧ a < h4.next) := by
   have mdlt : old.md < h.next := lt _ (mem_cmdFoot.2 (Or.inl (md_mem_cellsState _ _)))
-  have mdin : old.md ∈ cmdFoot h old args := mem_cmdFoot.2 (Or.inl (md_mem_cellsState _ _))
+  have mdin : old.md ∈ cmdFoot h old ctx args := mem_cmdFoot.2 (Or.inl (md_mem_cellsState _ _))
   -- allocation keeps the dictionary of `old`
-  have alloc_case : ∀ c : Cell, HMod (cmdFoot h old args) h (h.alloc c).1 ∧
+  have alloc_case : ∀ c : Cell, HMod (cmdFoot h old ctx args) h (h.alloc c).1 ∧
       ∀ a ∈ cellsState (h.alloc c).1 ⟨.ref h.next, old.md⟩,
-        a ∈ cmdFoot h old args ∨ (h.next ≤ a ∧ a < (h.alloc c).1.next) := by
+        a ∈ cmdFoot h old ctx args ∨ (h.next ≤ a ∧ a < (h.alloc c).1.next) := by
     intro c
     refine ⟨(HExt.alloc h c).toHMod _, fun a ha => ?_⟩
     rw [mem_cellsState, (HExt.alloc h c).metaAt mdlt] at ha
@@ -119,8 +122,8 @@ theorem cmdH_frame {h : Heap} {old : HState} {name : String} {args : List HV} {h
     · left; subst ha; exact mdin
     · left; exact mem_cmdFoot.2 (Or.inl (by simp [mem_cellsState, ha]))
   -- results that keep the heap
-  have same_case : ∀ d : HV, (∀ a ∈ cellsHV d, a ∈ cellsState h old) → HMod (cmdFoot h old args) h h ∧
-      ∀ a ∈ cellsState h ⟨d, old.md⟩, a ∈ cmdFoot h old args ∨ (h.next ≤ a ∧ a < h.next) := by
+  have same_case : ∀ d : HV, (∀ a ∈ cellsHV d, a ∈ cellsState h old) → HMod (cmdFoot h old ctx args) h h ∧
+      ∀ a ∈ cellsState h ⟨d, old.md⟩, a ∈ cmdFoot h old ctx args ∨ (h.next ≤ a ∧ a < h.next) := by
     intro d hd
     refine ⟨HMod.refl _ _, fun a ha => Or.inl (mem_cmdFoot.2 (Or.inl ?_))⟩
     rw [mem_cellsState] at ha
@@ -146,7 +149,7 @@ theorem cmdH_frame {h : Heap} {old : HState} {name : String} {args : List HV} {h
       simp only [CmdOut.ok.injEq] at hc
       obtain ⟨rfl, rfl, -, -⟩ := hc
       obtain ⟨hd, -, hv⟩ := listAt_some hl
-      have ain : a ∈ cmdFoot h old [v] := mem_cmdFoot.2 (Or.inl (dataIn a (by simp [hd, cellsHV])))
+      have ain : a ∈ cmdFoot h old ctx [v] := mem_cmdFoot.2 (Or.inl (dataIn a (by simp [hd, cellsHV])))
       refine ⟨HMod.write ain (lt a ain) _, fun x hx => Or.inl (mem_cmdFoot.2 (Or.inl ?_))⟩
       rwa [cellsState_write_val hv] at hx
     · cases hc
@@ -169,8 +172,8 @@ theorem cmdH_frame {h : Heap} {old : HState} {name : String} {args : List HV} {h
       obtain ⟨rfl, rfl, -, -⟩ := hc
       obtain ⟨hd, -, hv⟩ := listAt_some hl
       obtain ⟨ho, -, hvo⟩ := listAt_some hlo
-      have ain : a ∈ cmdFoot h old [o] := mem_cmdFoot.2 (Or.inl (dataIn a (by simp [hd, cellsHV])))
-      have bin : b ∈ cmdFoot h old [o] := mem_cmdFoot.2 (Or.inr ⟨o, by simp, by simp [ho, cellsHV]⟩)
+      have ain : a ∈ cmdFoot h old ctx [o] := mem_cmdFoot.2 (Or.inl (dataIn a (by simp [hd, cellsHV])))
+      have bin : b ∈ cmdFoot h old ctx [o] := mem_cmdFoot.2 (Or.inr (Or.inl ⟨o, by simp, by simp [ho, cellsHV]⟩))
       refine ⟨(HMod.write ain (lt a ain) _).trans (HMod.write (h := h.write a _) bin (lt b bin) _) (fun x hx _ => hx),
         fun x hx => Or.inl (mem_cmdFoot.2 (Or.inl ?_))⟩
       rwa [cellsState_write_val (isVal_write_val hvo _), cellsState_write_val hv] at hx
@@ -193,7 +196,7 @@ theorem cmdH_frame {h : Heap} {old : HState} {name : String} {args : List HV} {h
       · subst hx; exact mdin
       · rcases mem_cellsVars_setVar hx with h1 | h1
         · exact mem_cmdFoot.2 (Or.inl (by simp [mem_cellsState, h1]))
-        · exact mem_cmdFoot.2 (Or.inr ⟨v, by simp, h1⟩)
+        · exact mem_cmdFoot.2 (Or.inr (Or.inl ⟨v, by simp, h1⟩))
     · cases hc
   · -- getvar
     simp only at hc
@@ -210,7 +213,20 @@ theorem cmdH_frame {h : Heap} {old : HState} {name : String} {args : List HV} {h
         simp only [CmdOut.ok.injEq] at hc
         obtain ⟨rfl, rfl, -, -⟩ := hc
         obtain ⟨-, hin, -, hv⟩ := getVar_listAt hl
-        have ain : a ∈ cmdFoot h old [k, v] := mem_cmdFoot.2 (Or.inl (by simp [mem_cellsState, hin]))
+        have ain : a ∈ cmdFoot h old ctx [k, v] := mem_cmdFoot.2 (Or.inl (by simp [mem_cellsState, hin]))
+        refine ⟨HMod.write ain (lt a ain) _, fun x hx => Or.inl (mem_cmdFoot.2 (Or.inl ?_))⟩
+        rwa [cellsState_write_val hv] at hx
+      · cases hc
+    · cases hc
+  · -- cvapp
+    simp only at hc
+    split at hc
+    · split at hc
+      · rename_i k v _ k' hk _ a l hl
+        simp only [CmdOut.ok.injEq] at hc
+        obtain ⟨rfl, rfl, -, -⟩ := hc
+        obtain ⟨-, hin, -, hv⟩ := getVar_listAt hl
+        have ain : a ∈ cmdFoot h old ctx [k, v] := mem_cmdFoot.2 (Or.inr (Or.inr hin))
         refine ⟨HMod.write ain (lt a ain) _, fun x hx => Or.inl (mem_cmdFoot.2 (Or.inl ?_))⟩
         rwa [cellsState_write_val hv] at hx
       · cases hc
